@@ -4,6 +4,7 @@ import json, os, sys
 sys.path.insert(0, os.path.dirname(os.path.abspath(__file__)))
 import registry
 
+READY0 = {l.strip() for l in open(os.path.join(os.path.dirname(os.path.abspath(__file__)), 'ready.txt')) if l.strip() and not l.startswith('#')}
 ALL = ["C%02d" % i for i in range(1, 19)]
 hooks_commits = registry.HOOK_COMMITS
 m = {
@@ -17,9 +18,9 @@ m = {
         "add_only": True,
     },
     "engines": [
-        {"name": "coq", "path": "coq/", "serves_properties": sorted(registry.PROPS),
+        {"name": "coq", "path": "coq/", "serves_properties": sorted(p for p in registry.PROPS if p in READY0),
          "kind_free_text": "Coq 8.16.1 development: executable Gallina models, specs, theorems (Props/Cxx.v), regenerated Gen/*.v"},
-        {"name": "correspondence", "path": "harness/ ocaml/ tools/", "serves_properties": sorted(registry.PROPS),
+        {"name": "correspondence", "path": "harness/ ocaml/ tools/", "serves_properties": sorted(p for p in registry.PROPS if p in READY0),
          "kind_free_text": "Rust harness on the real crate vs extracted model (OCaml) and vm_compute sample, same generated cases"},
     ],
     "checks": [],
@@ -27,8 +28,9 @@ m = {
     "notes": "All checks: python3 tools/check.py <id> --tier quick|thorough. Exit 0 held, 1 VIOLATION, 2 machinery error. "
              "Known findings: known_findings.json. See DESIGN.md.",
 }
+READY = {l.strip() for l in open(os.path.join(os.path.dirname(os.path.abspath(__file__)), 'ready.txt')) if l.strip() and not l.startswith('#')}
 for pid in ALL:
-    if pid in registry.PROPS:
+    if pid in registry.PROPS and pid in READY:
         sp = registry.PROPS[pid]
         m["checks"].append({
             "property_id": pid,
